@@ -153,7 +153,7 @@ class Impl:
             for b in univ:
                 u, v = self.I(a), self.I(b)
                 flat = 1 if G.has_interaction(u, v) else 0
-                ts = [t for t in range(lo, hi + 1) if G.has_interaction(u, v, t)]
+                ts = [t for t in range(lo, hi + 1) if (G.has_interaction(u, v, t) if t % 2 else G.has_interaction(u, v, t=t))]
                 if flat or ts:
                     out.append([a, b, flat, ts])
         return out
@@ -186,7 +186,13 @@ class Impl:
         return "ok"
 
     def op_add(self, s, u, v, t, e):
-        self.G(s).add_interaction(self.I(int(u)), self.I(int(v)), t=tok(t), e=tok(e))
+        # keyword and positional spellings of the same call (the signature is (u, v, t=None, e=None))
+        if (int(u) + int(v)) % 2:
+            self.G(s).add_interaction(self.I(int(u)), self.I(int(v)), t=tok(t), e=tok(e))
+        elif tok(e) is None and int(u) % 3 == 0:
+            self.G(s).add_interaction(self.I(int(u)), self.I(int(v)), tok(t))
+        else:
+            self.G(s).add_interaction(self.I(int(u)), self.I(int(v)), tok(t), tok(e))
         return "ok"
 
     def _pairs(self, k, rest):
@@ -198,7 +204,10 @@ class Impl:
         prs = self._pairs(k, rest)
         shaped = [((u, v, {"w": i}) if i % 3 == 1 else (u, v)) for i, (u, v) in enumerate(prs)]
         bunch = shaped if len(prs) % 2 == 0 else iter(shaped)
-        self.G(s).add_interactions_from(bunch, t=tok(t), e=tok(e))
+        if len(prs) % 3 == 0:
+            self.G(s).add_interactions_from(bunch, tok(t), tok(e))
+        else:
+            self.G(s).add_interactions_from(bunch, t=tok(t), e=tok(e))
         return "ok"
 
     def _nodes(self, k, rest):
@@ -395,14 +404,20 @@ class Impl:
     # ---- derived graphs
     def op_slice(self, src, dst, a, b):
         G = self.G(src)
-        H = G.time_slice(int(a)) if b == "-" else G.time_slice(int(a), int(b))
+        if b == "-":
+            H = G.time_slice(int(a)) if int(a) % 2 else G.time_slice(t_from=int(a))
+        else:
+            H = G.time_slice(int(a), int(b)) if (int(a) + int(b)) % 2 else G.time_slice(t_from=int(a), t_to=int(b))
         assert H is not G
         self.slots[int(dst)] = H
         return "ok"
 
     def op_fslice(self, src, dst, a, b):
         G = self.G(src)
-        H = dn.time_slice(G, int(a)) if b == "-" else dn.time_slice(G, int(a), int(b))
+        if b == "-":
+            H = dn.time_slice(G, int(a))
+        else:
+            H = dn.time_slice(G, int(a), int(b)) if (int(a) + int(b)) % 2 else dn.time_slice(G, t_from=int(a), t_to=int(b))
         self.slots[int(dst)] = H
         return "ok"
 
@@ -666,7 +681,7 @@ class Impl:
             lst = list(lst)
             return {"n": len(lst), "set": sorted(uk(x[0], x[1]) for x in lst)}
 
-        r["inter"] = guard(lambda: inter(G.interactions(nb, t)))
+        r["inter"] = guard(lambda: inter(G.interactions(nb, t) if (t or 0) % 2 else G.interactions(nbunch=nb, t=t)))
         r["inter_iter"] = guard(lambda: inter(G.interactions_iter(nb, t)))
         r["f_inter"] = guard(lambda: inter(dn.interactions(G, nb, t)))
         if D:
@@ -675,12 +690,14 @@ class Impl:
             r["in_inter_iter"] = guard(lambda: inter(G.in_interactions_iter(nb, t)))
             r["out_inter_iter"] = guard(lambda: inter(G.out_interactions_iter(nb, t)))
         dd = lambda d: sorted([C(n), v] for n, v in d.items()) if isinstance(d, dict) else d
-        r["deg"] = guard(lambda: dd(G.degree(nb, t)))
+        r["deg"] = guard(lambda: dd(G.degree(nb, t) if (t or 0) % 2 else G.degree(nbunch=nb, t=t)))
         r["deg_iter"] = guard(lambda: dd(dict(G.degree_iter(nb, t))))
         r["f_deg"] = guard(lambda: dd(dn.degree(G, nb, t)))
         if nb is not None:
             # nbunch is documented as "iterated through once": a one-shot iterator is legal
             r["deg_once"] = guard(lambda: dd(G.degree(iter(list(nb)), t)))
+            r["deg_set"] = guard(lambda: dd(G.degree(set(nb), t)))         # any container of nodes is an nbunch
+            r["inter_tuple"] = guard(lambda: inter(G.interactions(tuple(nb), t)) if tuple(nb) not in G._node else inter(G.interactions(list(nb), t)))
             r["inter_once"] = guard(lambda: inter(G.interactions(iter(list(nb)), t)))
         if D:
             r["indeg"] = guard(lambda: dd(G.in_degree(nb, t)))
